@@ -140,12 +140,31 @@ def run(ctx):
                     r.ok("%s|bytes" % nm, "event bytes = buf[*range]", fn=f)
                 else:
                     r.bad("%s|bytes" % nm, "event bytes are `%s`" % show(e)[:80], fn=f)
-        if rearm == msib and decr and set(decr) <= set(csib):
-            r.ok("after_context_left", "re-armed only by the match routine (%s), decremented only by context delivery (%s)" % (rearm, decr))
+        # who writes after_context_left, over all of Core (wrappers included)
+        from ..graph import CallGraph
+        cg = CallGraph(facts)
+        reach_ctx = cg.may_reach({SINK + "::context"}, within=lambda p: p.startswith(CORE + "::"))
+        reach_mat = cg.may_reach({SINK + "::matched"}, within=lambda p: p.startswith(CORE + "::"))
+        rearm, decr, other = [], [], []
+        for g in facts.fns_in(CORE + "::"):
+            if g.kind == "closure":
+                continue
+            ebg = ExprBuilder(g)
+            for bb, j, st in g.stmts():
+                if st["k"] == "assign" and (CORE, "after_context_left") in fields_of_place(st["place"]):
+                    e = ebg.rvalue(st["rv"])
+                    if mentions_field(e, SCFG, "after_context"):
+                        rearm.append(g.name)
+                    elif e.k == "const":
+                        other.append(g.name)
+                    else:
+                        decr.append(g.name)
+        bad_decr = [n for n in decr if (CORE + "::" + n) not in reach_ctx or (CORE + "::" + n) in reach_mat]
+        if rearm == msib and decr and not bad_decr:
+            r.ok("after_context_left", "re-armed only by the match routine (%s), decremented only on the context-delivery path (%s)" % (rearm, sorted(set(decr))))
         else:
             r.bad("after_context_left", "after_context_left is re-armed by %s and decremented by %s" % (rearm, decr),
                   construct="after_context_left")
-        # context kinds
         # all three context kinds are delivered by someone: as a literal in a dedicated routine, or passed by the
         # callers of a shared routine
         kinds = {}
